@@ -76,6 +76,9 @@ class SerialPool:
     def map(self, f, items):
         return [f(x) for x in items]
 
+    imap = map
+    uimap = map      # one worker: completion order == input order
+
     def close(self):
         pass
 
